@@ -224,8 +224,9 @@ def run_impl(prop, cases, workdir, jobs=JOBS, timeout_s=None, cov_out=None):
         env.pop("BIBTEXPARSER_VERIF", None)
         env["BIBTEXPARSER_VERIF"] = "1"
         env.pop("VERIF_COV_OUT", None)
-        if k == 0 and cov_out:
-            env["VERIF_COV_OUT"] = cov_out         # statement coverage of /repo is sampled on the first shard
+        if cov_out and (k == 0 or os.environ.get("VERIF_COV_ALL", "1") != "0"):
+            # statement coverage of /repo is measured on every shard and merged (VERIF_COV_ALL=0: first shard only)
+            env["VERIF_COV_OUT"] = cov_out if k == 0 else "%s.%d" % (cov_out, k)
         p = subprocess.Popen([PY, "-B", os.path.join(HERE, "impl_runner.py"), prop, inp, outp], cwd=workdir, env=env,
                              stdout=subprocess.PIPE, stderr=subprocess.STDOUT, text=True)
         procs.append((p, outp, sh))
@@ -236,6 +237,11 @@ def run_impl(prop, cases, workdir, jobs=JOBS, timeout_s=None, cov_out=None):
         if os.path.exists(outp):
             with open(outp) as f:
                 recs = [json.loads(l) for l in f if l.strip()]
+            second = {r["id"]: r["second_pass"] for r in recs if "second_pass" in r}
+            recs = [r for r in recs if "second_pass" not in r]
+            for r in recs:
+                if r["id"] in second:
+                    r["second_pass"] = second[r["id"]]
         if p.returncode != 0 or len(recs) != len(sh):
             # the child died: mark the remaining cases as crashed (this is itself a finding for C01-like properties)
             for c in sh[len(recs):]:
@@ -340,6 +346,18 @@ def evaluate(prop, mod, cases, workdir, out, vm_sample_rng=None, do_vm=True):
                 else:
                     out.violations.append({"kind": "oracle", "case": c, "detail": r["oracle"].get("detail", ""),
                                            "impl_out": r.get("summary")})
+        if r.get("second_pass") is not None:
+            sp = r["second_pass"]
+            stats["second_pass_differs"] = stats.get("second_pass_differs", 0) + 1
+            why = ("evaluating this case a second time in the same process (after the other cases of its shard) gave a different "
+                   "result: the library carries state between calls; first %s, second %s" % (r.get("summary"), sp.get("summary")))
+            spo = sp.get("oracle") or {}
+            if spo.get("ok") is False and not spo.get("known"):
+                out.violations.append({"kind": "oracle", "case": c, "detail": why + " :: " + spo.get("detail", ""),
+                                       "impl_out": sp.get("summary")})
+            elif r.get("sx_in") is not None and mo.get(i) not in (None, "(-2)") and not r.get("skip"):
+                disagreements.append({"case": c, "model": mo.get(i), "impl": sp.get("sx_out"), "sx_in": r["sx_in"],
+                                      "oracle": sp.get("oracle"), "summary": why})
         if r.get("nontrivial"):
             stats["nontrivial"].add(r.get("key") or case_hash(c.get("input")))
         if r.get("sx_in") is None:
@@ -361,7 +379,15 @@ def evaluate(prop, mod, cases, workdir, out, vm_sample_rng=None, do_vm=True):
     if os.path.exists(cov_out):
         try:
             cv = json.load(open(cov_out))
-            stats["code_coverage_first_shard"] = {f: {"statements": v[0], "executed": v[0] - v[1]} for f, v in sorted(cv.items())
+            k = 1
+            while os.path.exists("%s.%d" % (cov_out, k)):
+                for f, v in json.load(open("%s.%d" % (cov_out, k))).items():
+                    if f in cv and len(v) > 2:
+                        miss = sorted(set(cv[f][2]) & set(v[2]))
+                        cv[f] = [cv[f][0], len(miss), miss]
+                k += 1
+            stats["code_coverage_first_shard"] = {f: {"statements": v[0], "executed": v[0] - v[1], "not_executed_lines": v[2] if len(v) > 2 else None}
+                                                  for f, v in sorted(cv.items())
                                                   if v[0] - v[1] > 0 and not f.endswith("__init__.py")}
         except Exception:
             pass
